@@ -289,7 +289,9 @@ def cmd_check(args):
                 continue
             fprops = props_of_failure(f, meta, unit_users.get(u["unit"], []))
             f["obligation"] = name
-            if pid in fprops:
+            if fprops == ["-"]:
+                undecided_msgs.append("%s fails: a support clause (states what the code computes so that callers can be verified; not a property clause): %s" % (name, f["message"]))
+            elif pid in fprops:
                 violations.append((u, f))
             else:
                 undecided_msgs.append("%s fails (an obligation of %s that this property's lemmas rest on): %s" % (
